@@ -64,4 +64,47 @@ PROPS = {
         ],
         "partial": ["agreement with the walk is proved for chains of <= 9 hops without shadowing; the unrestricted statement is refuted (4 witnesses)"],
     },
+    "C17": {
+        "harness": "c17",
+        "props_file": "Props/C17.v",
+        "run_module": "Model.Graph Model.Walk Model.RunC15 Model.RunC02 Model.RunC14 Model.Prune Model.RunC17",
+        "run_fn": "run_c17",
+        "pinned_theorems": ["C17_terminates", "C17_entries", "C17_code_view_unchanged", "C17_no_types_left",
+                            "C17_code_only_noop"],
+        "rule": ("worlds of 2-10 modules satisfying the same-attribute proviso (the `type` attribute used for a "
+                 "target is a function of the target; roots/configured imports/redirect sources are requested "
+                 "without attribute), default build options; each world is built three ways on the REAL code: "
+                 "all kinds, all kinds + prune_types, code only (without configured type imports). Checked: real "
+                 "prune result == model prune of the abstracted all-kinds graph (full structural equality), "
+                 "nothing type-related left in the real pruned graph, and observational code-equality of the "
+                 "real pruned graph with the real code-only build (extracted obs_code_eqb: entries with module "
+                 "kind/media/error kind, redirects, code edges as sets with targets and dynamic flags, valid() "
+                 "verdict). non-trivial = all-kinds graph with >= 3 entries of which pruning removes at least one"),
+        "assumptions": [
+            "default build options (with skip_dynamic_deps a dynamically imported module loaded through a type edge survives pruning but is absent from the code-only build: recorded as an observation in DESIGN.md)",
+            "known findings F-C17a (context-dependent acceptance of attribute-less JSON) and F-C17b (position of the TooManyRedirects error on a redirect cycle) are reported as KNOWN-FINDING",
+        ],
+        "partial": ["the build-level equality prune(build All) = build CodeOnly is decided on the real code per case; its theorem over a builder model is not yet proved"],
+    },
+    "C18": {
+        "harness": "c18",
+        "props_file": "Props/C18.v",
+        "run_module": "Model.Graph Model.Walk Model.RunC15 Model.RunC02 Model.RunC14 Model.Prune Model.RunC17 Model.RunC18",
+        "run_fn": "run_c18",
+        "pinned_theorems": ["C18_terminates", "C18_clone", "C18_entries", "C18_self_contained_correct",
+                            "C18_typesonly_refuted"],
+        "rule": ("same proviso worlds as C17, graph kind in {All, CodeOnly, TypesOnly} (configured type imports only "
+                 "for kinds that include types), 1-2 segment roots among the graph's modules (12%: the original "
+                 "roots, exercising the clone shortcut). Checked on the REAL code: real segment == model segment "
+                 "of the abstracted graph (full structural equality); every dependency of every module of the real "
+                 "segment resolves (with and without type preference) and try_gets as in the real original, and "
+                 "three validations agree (extracted self_contained, proved equivalent to the declarative "
+                 "statement); entries+redirects of the real segment == those of a real direct build of the segment "
+                 "roots. non-trivial = segment roots not all original roots, segment has >= 2 entries and fewer "
+                 "than the original"),
+        "assumptions": [
+            "known findings F-C18a (types-only segment drops a JS module that has a types dependency), F-C18b (context-dependent acceptance of attribute-less JSON, same cause as F-C17a) and the C14 entry-at-redirect/cycle family are reported as KNOWN-FINDING",
+        ],
+        "partial": ["self-containedness and equality with a direct build are decided per case on the real code; graph-level theorems characterise the segment's contents"],
+    },
 }
